@@ -719,16 +719,42 @@ func (p *prog) hintFam() {
 		p.otherSnippet()
 		return
 	case 8:
-		// undefined name: static error with a hint over sorted bindings
+		// undefined name: static error with a hint over the bindings of the enclosing blocks (function
+		// locals and parameters, file-local load bindings, module globals); siblings at equal distance
 		names := p.idents(3 + p.r.Intn(5))
 		for i, n := range names {
 			p.def("%s = %d", n, i)
 		}
-		n := names[p.r.Intn(len(names))]
-		failing = n[:len(n)-1] + string("qz_"[p.r.Intn(3)])
-		if p.chance(0.5) {
-			failing = strings.ToUpper(n[:1]) + n[1:] + "_"
+		base := p.pick([]string{"local_", "a_long_local_variable_name_", "v", "Item"})
+		chars := "abcdefgh"
+		perm := p.r.Perm(len(chars))
+		k := 2 + p.r.Intn(5)
+		var params, assigns []string
+		for j, i := range perm[:k] {
+			if j%3 == 0 {
+				params = append(params, fmt.Sprintf("%s%c", base, chars[i]))
+			} else {
+				assigns = append(assigns, fmt.Sprintf("    %s%c = %d", base, chars[i], i))
+			}
 		}
+		n := names[p.r.Intn(len(names))]
+		switch p.r.Intn(3) {
+		case 0:
+			failing = n[:len(n)-1] + string("qz_"[p.r.Intn(3)])
+		case 1:
+			failing = strings.ToUpper(n[:1]) + n[1:] + "_"
+		default:
+			failing = fmt.Sprintf("%s%c", base, "xyz"[p.r.Intn(3)])
+		}
+		if p.chance(0.5) {
+			p.loads = append(p.loads, `load("big.star", "alpha_beta", "alpha_bets", "alpha_bet0", "x1", "x2", "x3")`)
+			if p.chance(0.5) {
+				failing = p.pick([]string{"alpha_betx", "x4", "alpha_bet"})
+			}
+		}
+		f := p.v("und")
+		p.def("def %s(%s):\n%s\n    return %s", f, strings.Join(params, ", "), strings.Join(append(assigns, "    pass"), "\n"), failing)
+		failing = fmt.Sprintf("%s(%s)", f, strings.Repeat("0, ", len(params)))
 		p.tag("static-error")
 	default:
 		// keyword hint on a module function loaded from big.star / unexpected keyword on a def (no hint)
